@@ -145,7 +145,16 @@ def run_child(body, root, cfg, phase, crash_at=None, half_at=None, record=False,
                 pass
         finally:
             os._exit(code)
-    _pid, st = os.waitpid(pid, 0)
+    try:
+        _pid, st = os.waitpid(pid, 0)
+    except BaseException:
+        # watchdog / interrupt while the child is still running: do not leave it behind
+        try:
+            os.kill(pid, 9)
+            os.waitpid(pid, 0)
+        except OSError:
+            pass
+        raise
     code = os.waitstatus_to_exitcode(st)
     info = {}
     if os.path.exists(out):
